@@ -26,7 +26,7 @@ fn main() {
         env::cleanup_scratch();
         std::process::exit(code);
     }
-    if matches!(id.as_str(), "C07" | "C07M" | "C16S" | "C08" | "C11D" | "C13D" | "C14D" | "C16D" | "C18" | "C20") && args.get(2).map(|s| s.as_str()) == Some("--worker") {
+    if matches!(id.as_str(), "C07" | "C07M" | "C16S" | "C08" | "C08S" | "C11D" | "C13D" | "C14D" | "C16D" | "C18" | "C20") && args.get(2).map(|s| s.as_str()) == Some("--worker") {
         let seed: u64 = args[3].parse().unwrap_or(1);
         let lane: u64 = args[4].parse().unwrap_or(0);
         let count: u32 = args[5].parse().unwrap_or(1);
